@@ -10,8 +10,8 @@ import multiprocessing as mp
 
 from harness import core
 
-GEN = []
-THEOREMS = ['C16_tiling', 'C16_sorted_disjoint', 'C16_children_inside', 'C16_text_recovered',
+GEN = ['gen_core']
+THEOREMS = ['C16_relation_is_the_source', 'C16_tiling', 'C16_sorted_disjoint', 'C16_children_inside', 'C16_text_recovered',
             'C16_subset', 'C16_pair_rule', 'C16_pair_rule_as_stated', 'C16_trailing_region_refuted']
 TRUSTED = ['hand-written model coq/theories/Model/SpanTokenizer.v of mistletoe/span_tokenizer.py '
            '(tied by the X-span correspondence run, not verified against the source text)']
